@@ -445,7 +445,7 @@ static void pad_xor(bn_t c, const bn_t t) {
 static int pad_pkcs2(bn_t m, size_t *p_len, size_t m_len, size_t k_len,
 		int operation) {
 	uint8_t pad, h1[RLC_MD_LEN], h2[RLC_MD_LEN];
-	uint8_t *mask = RLC_ALLOCA(uint8_t, k_len);
+	uint8_t *mask = RLC_ALLOCA(uint8_t, RLC_MAX(k_len, RLC_MD_LEN + 8));
 	int result = RLC_ERR;
 	bn_t t;
 
